@@ -29,6 +29,8 @@ func doDump(p *Program, what string) {
 			return
 		}
 		dumpSummary(p, Summarize(p, f))
+	case what == "rewrite-specs":
+		rewriteSpecs(p, "/verif/spec")
 	case what == "specs":
 		pairs, missing := p.specPairs()
 		for _, m := range missing {
